@@ -28,6 +28,25 @@ class PersistentOps:
         self.abf = FMAverageBranchingFactor()
         self.ancestors = FMFeatureAncestors()
         self.vps = FMVariationPoints()
+        # results handed out earlier by these objects, with what they looked like then: they belong to the caller
+        self.held = {}
+        self.held_failures = []
+
+    def hold(self, key, raw):
+        """remember the result object of this execution; report when the one of the PREVIOUS execution has changed"""
+        def look(x):
+            if isinstance(x, dict):
+                return sorted((getattr(k, "name", k), look(v)) for k, v in x.items())
+            if isinstance(x, (list, tuple, set, frozenset)):
+                items = [look(y) for y in x]
+                return sorted(items, key=repr) if isinstance(x, (set, frozenset)) else items
+            return getattr(x, "name", x)
+        prev = self.held.get(key)
+        if prev is not None and repr(look(prev[0])) != prev[1]:
+            self.held_failures.append(key)
+        if isinstance(raw, (list, dict, set)):
+            self.held[key] = (raw, repr(look(raw)))
+        return raw
 
 
 def impl_ops(fm, keys, ops=None):
@@ -43,10 +62,10 @@ def impl_ops(fm, keys, ops=None):
             except Exception as e:  # noqa: BLE001
                 out[key] = ("err", spec.exn_name(e))
     run("estimate", lambda: ops.estimate.execute(fm).get_result())
-    run("core", lambda: sorted(f.name for f in ops.core.execute(fm).get_result()))
-    run("atomic", lambda: [sorted(f.name for f in s) for s in ops.atomic.execute(fm).get_result()])
+    run("core", lambda: sorted(f.name for f in ops.hold("core", ops.core.execute(fm).get_result())))
+    run("atomic", lambda: [sorted(f.name for f in s) for s in ops.hold("atomic", ops.atomic.execute(fm).get_result())])
     run("count_leafs", lambda: ops.count_leafs.execute(fm).get_result())
-    run("leaf_features", lambda: [f.name for f in ops.leaf_features.execute(fm).get_result()])
+    run("leaf_features", lambda: [f.name for f in ops.hold("leaf_features", ops.leaf_features.execute(fm).get_result())])
     run("max_depth", lambda: ops.max_depth.execute(fm).get_result())
     run("abf", lambda: repr(float(ops.abf.execute(fm).get_result())))
 
@@ -58,7 +77,7 @@ def impl_ops(fm, keys, ops=None):
         return sorted(res)
     run("ancestors", ancestors)
     run("vps", lambda: sorted([k.name, [v.name for v in vs]]
-                              for k, vs in ops.vps.execute(fm).get_result().items()))
+                              for k, vs in ops.hold("vps", ops.vps.execute(fm).get_result()).items()))
     return out
 
 
@@ -368,6 +387,9 @@ def make_run(name, keys, with_ctcs=True, big=(), bf_limit=12, check_sem=False):
             if label == "via-uvl-reader":
                 fm = read_through_uvl(m)         # "built through the constructors or RETURNED BY A READER"
             impl = impl_ops(fm, keys, ops)
+            for key in ops.held_failures:
+                st.oracle_fail(label, req, "result-handed-out-earlier-was-changed", key)
+            ops.held_failures.clear()
             after = spec.dump_fm(fm)
             n = spec.spec_size(m["root"])
             st.record(label, req, repr(impl), repr(mreply), nontrivial=n >= 2)
